@@ -1,5 +1,5 @@
 (* C11 — hierarchy validation equals declared path semantics, in reader and writer alike.  Statements only. *)
-From Ebml Require Import Base Tools Spec Writer Reader Pure Proofs.Tactics Proofs.SpecProofs Proofs.WriterProofs Proofs.Refine Proofs.PureProofs Proofs.ErrKinds.
+From Ebml Require Import Base Tools Spec Writer Reader Pure Proofs.Tactics Proofs.SpecProofs Proofs.WriterProofs Proofs.Refine Proofs.PureProofs Proofs.ErrKinds Proofs.AuditErrKinds.
 
 (* the matcher decides the declarative pattern semantics (Matches: each named parent matches exactly that master, each
    placeholder (min-max) between min and max arbitrary masters, the whole chain consumed) — for every path and chain *)
@@ -14,8 +14,12 @@ Proof. exact matches_root. Qed.
 Theorem C11_writer : forall sp id o, w_validate sp id o = true <-> Matches (get_path sp id) (rev (open_ids o)).
 Proof. exact w_validate_spec. Qed.
 
-(* ... it is applied to every non-End tag whose id the specification knows, whatever the options (explicit width, unknown
-   size, deprecated call), and a rejection is the unexpected-tag error carrying the offending id and the chain, state unchanged *)
+(* ... it is applied to every non-End tag whose id the specification knows - NOT "under every option": the two earlier steps
+   of the writer must let the tag through.  Hypothesis 2, [o_unknown o && negb (is_master_ty ...) = false]: the options do not
+   request an unknown size for a non-master (that combination is answered with the size error before the hierarchy is looked
+   at).  Hypothesis 3, [is_master_ty ... && negb (is_master_tag t) = false]: a master id is not written as a non-master tag
+   (the writer model answers that with a panic outcome).  An explicit width and the deprecated call make no difference.  A rejection is
+   the unexpected-tag error carrying the offending id and the chain, state unchanged *)
 Theorem C11_writer_rejects : forall sp t o st,
   should_validate sp t = true ->
   (o_unknown o && negb (is_master_ty (get_type sp (tag_id t))) = false) ->
@@ -53,10 +57,52 @@ Example C11_ex :
 Proof. vm_compute. repeat split; reflexivity. Qed.
 
 (* the reader's rejection: HierarchyError{found_tag_id := the id at the cursor, current_parent_id := the innermost open master},
-   reported exactly when hierarchy problems are not tolerated, the id is known and the chain that remains after the closing
-   rule does not match the declared path *)
+   reported ONLY when hierarchy problems are not tolerated, the id is known and the chain that remains after the closing
+   rule does not match the declared path (this direction: error => cause; the converse is C11_reader_reports below) *)
 Theorem C11_reader_error_fields : forall c st st' id par, p_header c st = (st', Err (RHierarchy id par)) ->
   exists idl, p_tag_id st = Ok (id, idl) /\ par = match b_stack st' with f :: _ => Some (f_id f) | [] => None end /\
               c_allow_hier c = false /\ get_type (c_sp c) id <> None /\
               validate_tag_path (c_sp c) id (stack_view (b_stack st')) = false.
 Proof. exact hierarchy_error_fields. Qed.
+
+(* the converse, while the document position is determined ([b_det st = true]: an element with a placeholder-free path has been
+   read) and no earlier header check fails (id and size field decode, a numeric element declares at most 8 bytes; the id being
+   known, the unknown-id check passes): if hierarchy problems are not tolerated and the open masters do not match the declared
+   path, the header check returns exactly that HierarchyError (found id, innermost open master [top_id]), state unchanged *)
+Theorem C11_reader_reports : forall c st id idl size sl d, p_tag_id st = Ok (id, idl) ->
+  read_vint (firstn 8 (skipn idl (b_bytes st))) = Ok (Some (size, sl)) ->
+  is_numeric (get_type (c_sp c) id) && (8 <? size) = false ->
+  get_type (c_sp c) id = Some d -> c_allow_hier c = false -> b_det st = true ->
+  validate_tag_path (c_sp c) id (stack_view (b_stack st)) = false ->
+  p_header c st = (st, Err (RHierarchy id (top_id (b_stack st)))).
+Proof. intros. eapply reports_hierarchy; eassumption. Qed.
+
+(* both directions in one statement, under the same side conditions: the HierarchyError is reported exactly when hierarchy
+   problems are not tolerated and the remaining chain does not match *)
+Theorem C11_reader_error_iff : forall c st id idl size sl d, p_tag_id st = Ok (id, idl) ->
+  read_vint (firstn 8 (skipn idl (b_bytes st))) = Ok (Some (size, sl)) ->
+  is_numeric (Some d) && (8 <? size) = false -> get_type (c_sp c) id = Some d -> b_det st = true ->
+  (p_header c st = (st, Err (RHierarchy id (top_id (b_stack st)))) <->
+   c_allow_hier c = false /\ validate_tag_path (c_sp c) id (stack_view (b_stack st)) = false).
+Proof. exact hierarchy_error_iff. Qed.
+
+(* while the position is undetermined, an element whose declared path has no placeholder is judged against the open masters
+   plus its implied parents (C13_reports_hierarchy_seeded); one whose declared path HAS a placeholder is not checked at all: *)
+Theorem C11_unchecked_while_undetermined : forall c st id idl size sl d, p_tag_id st = Ok (id, idl) ->
+  read_vint (firstn 8 (skipn idl (b_bytes st))) = Ok (Some (size, sl)) ->
+  is_numeric (get_type (c_sp c) id) && (8 <? size) = false ->
+  get_type (c_sp c) id = Some d -> b_det st = false -> all_ids (get_path (c_sp c) id) = false ->
+  forall st' par, p_header c st <> (st', Err (RHierarchy id par)).
+Proof. intros. eapply hierarchy_unchecked_while_undetermined; eassumption. Qed.
+
+(* ... so the property's clause "rejected when the chain does not match" has an exception there.  Element 0x4101 declared with
+   the path (1-) - at least one master above it - at the top level of the input, strict configuration: the matcher rejects the
+   empty chain, yet the reader delivers the element and ends cleanly, because nothing has determined the position yet; after a
+   root element has been read the same element at the top level is rejected *)
+Example C11_undetermined_counterexample :
+  let sp := [ {| e_id := 129; e_ty := DMaster; e_path := [] |}; {| e_id := 16641; e_ty := DUInt; e_path := [PGlobal (Some 1) None] |} ] in
+  let c := {| c_sp := sp; c_allow_id := false; c_allow_hier := false; c_allow_over := false; c_max := None; c_buffered := []; c_emit_eof := true |} in
+  validate_tag_path sp 16641 [] = false /\
+  p_run c [65; 1; 129; 5] [RAll] = [OItem (TElem 16641 (VU 5)) 0; ONone] /\
+  p_run c [129; 128; 65; 1; 129; 5] [RAll] = [OItem (TStart 129) 0; OItem (TEnd 129) 0; OErr (RHierarchy 16641 None)].
+Proof. vm_compute. repeat split; reflexivity. Qed.
